@@ -952,6 +952,8 @@ type access struct {
 	tid   int
 	clock int32
 	path  string
+	ph    uint64 // canonical identity of the accessing vthread
+	hist  uint64 // its history when it made the access
 	pcs   [12]uintptr
 	npc   int
 }
@@ -996,7 +998,9 @@ func shortStack(skip int) string {
 
 // AccessSlot records a read or write of slot `slot` of object obj by the running vthread and reports
 // a data race if a conflicting access by another vthread is not ordered before it by happens-before.
-func AccessSlot(obj any, slot int, write bool) {
+func AccessSlot(obj any, slot int, write bool) { accessSlot(obj, slot, write, 5) }
+
+func accessSlot(obj any, slot int, write bool, skip int) {
 	s := S
 	if s == nil || s.aborting || s.cur == nil {
 		return
@@ -1011,10 +1015,10 @@ func AccessSlot(obj any, slot int, write bool) {
 		ls = &locState{}
 		s.locs[k] = ls
 	}
-	me := access{tid: t.idx, clock: vcGet(t.vc, t.idx), path: t.path}
+	me := access{tid: t.idx, clock: vcGet(t.vc, t.idx), path: t.path, ph: t.ph, hist: t.hist}
 	// call stacks are only recorded when an execution is re-run to describe a race it showed
 	if s.wantStacks {
-		me.npc = runtime.Callers(4, me.pcs[:])
+		me.npc = runtime.Callers(skip, me.pcs[:])
 	}
 	report := func(prev access, kind string) {
 		st := me.stack()
@@ -1079,5 +1083,32 @@ func AccessRange(obj any, from, n int) {
 	}
 }
 
-// Access records an access to a field (identified by its address).
-func Access(addr any, write bool) { AccessSlot(addr, 0, write) }
+// YieldOnAccess makes every hooked field access (rule R4) a scheduling point, so that all sequentially
+// consistent interleavings at field granularity are explored (used by C11).
+var YieldOnAccess bool
+
+// Access records an access to a struct field (identified by its address). What a vthread reads from
+// shared memory is part of its history — as the identity of the write it observed: (writer, writer's
+// history at the write) — so that state-key pruning stays sound when vthreads communicate through
+// hooked fields instead of channels.
+func Access(addr any, write bool) {
+	s := S
+	if s == nil || s.aborting || s.cur == nil {
+		return
+	}
+	if YieldOnAccess {
+		Yield()
+		if s.aborting {
+			return
+		}
+	}
+	t := s.cur
+	if write {
+		t.hist = mix(t.hist, 31)
+	} else if ls := s.locs[locKey{addr, 0}]; ls != nil && ls.w != nil {
+		t.hist = mix(t.hist, 30, ls.w.ph, ls.w.hist)
+	} else {
+		t.hist = mix(t.hist, 30, 0, 0)
+	}
+	accessSlot(addr, 0, write, 3)
+}
